@@ -442,7 +442,20 @@ func (u *vc28U) mutate(stxs []transactions.SignedTxn) string {
 		}
 		m.Subsigs = append([]crypto.MultisigSubsig{}, m.Subsigs...)
 		j := r.Intn(len(m.Subsigs))
-		switch r.Intn(13) {
+		switch r.Intn(15) {
+		case 13, 14:
+			// break the last / the first sub-signature that is present
+			for k := range m.Subsigs {
+				idx := k
+				if r.Intn(3) > 0 {
+					idx = len(m.Subsigs) - 1 - k
+				}
+				if !m.Subsigs[idx].Sig.Blank() {
+					vc28FlipSig(r, &m.Subsigs[idx].Sig)
+					return "msig_flip_end_subsig"
+				}
+			}
+			return ""
 		case 0:
 			m.Subsigs[j].Sig = crypto.Signature{}
 			return "msig_blank_subsig"
